@@ -97,6 +97,10 @@ type LoadCase struct {
 	// have made every key translatable (it reports success); a Load that returns the error is
 	// not judged further.
 	FailAt int `json:"fail_at,omitempty"`
+	// Preset: before every Load the store already holds every third key of the files with another
+	// value (built-in texts set before loading, an earlier load of an older edition of a file):
+	// afterwards the key must translate to the FILE's value.
+	Preset bool `json:"preset,omitempty"`
 }
 
 // Exec runs a case of any kind.
@@ -741,6 +745,21 @@ func execLoad(full Case) hx.Verdict {
 	}
 	for rep := 0; rep < reps; rep++ {
 		i18 := i18mem.NewI18N()
+		if c.Preset {
+			stale := map[string]string{}
+			ks := make([]string, 0, len(want))
+			for k := range want {
+				ks = append(ks, k)
+			}
+			sort.Strings(ks)
+			for i, k := range ks {
+				if i%3 == 0 {
+					stale[k] = "stale value set before the load"
+				}
+			}
+			i18.Set(stale)
+			v.Label("load:store-held-older-values-of-some-keys")
+		}
 		done := make(chan error, 1)
 		var ctl *fsmodel.FaultCtl
 		var loadFS filesystem.Filespace = fs
